@@ -88,16 +88,41 @@ pub fn write_fasta(path: &str, recs: &[Vec<u8>]) {
         e.write_all(data).unwrap();
         e.finish().unwrap()
     };
+    // BGZF (bgzip): gzip members of at most 64 KiB each carrying the `BC` extra field with the block size; an empty block marks
+    // the end of a bgzip output.  Still plain multi-member gzip for any reader that ignores the extra field.
+    let bgzf = |data: &[u8]| -> Vec<u8> {
+        let block = |d: &[u8]| -> Vec<u8> {
+            let mut e = flate2::write::DeflateEncoder::new(Vec::new(), flate2::Compression::default());
+            e.write_all(d).unwrap();
+            let c = e.finish().unwrap();
+            let mut crc = flate2::Crc::new(); crc.update(d);
+            let bsize = (18 + c.len() + 8 - 1) as u16;
+            let mut b: Vec<u8> = vec![0x1f, 0x8b, 8, 4, 0, 0, 0, 0, 0, 0xff, 6, 0, b'B', b'C', 2, 0, (bsize & 0xff) as u8, (bsize >> 8) as u8];
+            b.extend(c);
+            b.extend_from_slice(&crc.sum().to_le_bytes());
+            b.extend_from_slice(&(d.len() as u32).to_le_bytes());
+            b
+        };
+        let mut out: Vec<u8> = Vec::new();
+        if data.is_empty() { out.extend(block(b"")); }
+        for ch in data.chunks(0xff00) { out.extend(block(ch)); }
+        out
+    };
     if kind == "gzm" {
-        // three members (records split between them) and an empty one, as `cat a.gz b.gz c.gz` / bgzip produce
+        // `cat a.gz b.gz` of two bgzip outputs (blocks + end marker each): the records are split between three runs of blocks,
+        // and an empty block sits in the middle and at the end (ordinary multi-member gzip: kind fqgz)
         let n = recs.len();
         let cuts = [0, (n + 2) / 3, (2 * n + 2) / 3, n];
         let mut out: Vec<u8> = Vec::new();
-        for w in cuts.windows(2) { out.extend(gz(&ser(w[0], w[1]))); }
-        out.extend(gz(b""));
+        out.extend(bgzf(&ser(cuts[0], cuts[1]))); out.extend(bgzf(b""));
+        out.extend(bgzf(&ser(cuts[1], cuts[2])));
+        out.extend(bgzf(&ser(cuts[2], cuts[3]))); out.extend(bgzf(b""));
         std::fs::write(path, out).unwrap();
     } else if kind == "fqgz" {
-        std::fs::write(path, gz(&ser(0, recs.len()))).unwrap();
+        // two ordinary gzip members
+        let h = recs.len() / 2;
+        let mut out = gz(&ser(0, h)); out.extend(gz(&ser(h, recs.len())));
+        std::fs::write(path, out).unwrap();
     } else {
         std::fs::write(path, ser(0, recs.len())).unwrap();
     }
